@@ -55,6 +55,12 @@ impl BlakeRNGFactory {
     }
 
     pub fn get_rng(&self) -> BlakeRNG {
+        #[cfg(feature = "verif_hooks")]
+        if self.use_random_seed {
+            if let Some(seed) = crate::verif_hooks::entropy() {
+                return BlakeRNG::from_seed(PRNGSeed(seed));
+            }
+        }
         if self.use_random_seed {
             let mut seed = [0; 64];
             ChaCha20Rng::from_entropy().fill_bytes(&mut seed);
